@@ -1179,6 +1179,11 @@ both!(multinomial, multinomial_t, 0.25);
 both!(bernoulli, bernoulli_t, 0.25);
 both!(categorical, categorical_t, 0.25);
 
+/// parameter builders keep every configured value whatever the order of the `with_*` steps
+fn builders_fam(c: &mut Case) {
+    scverif::builders::case(c, "C11")
+}
+
 fn main() {
     runner::main(Spec {
         property: "C11",
@@ -1192,6 +1197,7 @@ fn main() {
             "categorical n_categories = largest code + 1 per feature (categories are enumerated 0..max like the class labels)",
         ],
         families: vec![
+            Family::new("builders", 300, 3000, builders_fam),
             Family::new("gaussian", 6000, 80000, gaussian),
             Family::new("gaussian_offset", 1000, 15000, gaussian_offset),
             Family::new("multinomial", 6000, 80000, multinomial),
